@@ -1940,6 +1940,10 @@ private:
     // throws load_factor_too_low, and an automatic one obeys this map's setting.
     new_map.minimum_load_factor(AUTO_RESIZE::value ? minimum_load_factor()
                                                    : 0.0);
+    // Likewise the maximum hashpower: a rebuild that cannot fit the elements
+    // below the limit (e.g. a shrink request on a nearly full table) must fail
+    // with maximum_hashpower_exceeded instead of silently exceeding it.
+    new_map.maximum_hashpower(maximum_hashpower());
 
     parallel_exec(
         0, hashsize(hp),
